@@ -234,9 +234,8 @@ func (t *tokenizer) Next() error {
 			t.unread(c)
 			return t.ok(tokenSymbolOperator, true)
 		}
-		if c2 == ' ' || isIdentifierPart(c2) {
-			t.unread(c)
-		}
+		// The dot itself is the operator symbol '.', whatever follows it.
+		t.unread(c)
 
 		return t.ok(tokenDot, false)
 
